@@ -1019,7 +1019,7 @@ pub fn from_bytes<P: Property>(path: &Path) -> i32 {
         return 0;
     }
     // shrink: standard simplify / complicate walk, bounded
-    let budget = if P::isolated().is_some() { 48 } else { 2000 };
+    let budget = if std::env::var("VERIF_NOSHRINK").is_ok() { 0 } else if P::isolated().is_some() { 48 } else { 2000 };
     let mut best = (tree.current(), first);
     let mut steps = 0;
     'outer: while steps < budget && tree.simplify() {
